@@ -486,6 +486,7 @@ type pkt struct {
 	field int    // the port / identifier the packet carries
 	dst   string // "ip" | "svc-cs" | "svc-ds" | "svc-cs-mcast" | "svc-wildcard"
 	cut   int    // err-cut: number of bytes of the quoted packet that are kept
+	ext   string // extension headers between the SCION header and L4: "" | "hbh" | "e2e" | "hbh+e2e"
 }
 
 // offset of the L4 header in the quoted packet: common header 12, address header 2*8+2*4, path
@@ -533,6 +534,25 @@ func build(p pkt) []byte {
 	f := uint16(p.field)
 	opts := gopacket.SerializeOptions{FixLengths: true, ComputeChecksums: true}
 	ser := func(ls ...gopacket.SerializableLayer) []byte {
+		if len(ls) > 0 && ls[0] == gopacket.SerializableLayer(spkt) && p.ext != "" {
+			// hop-by-hop and / or end-to-end extension headers in front of the layer-4 header
+			l4 := spkt.NextHdr
+			var extra []gopacket.SerializableLayer
+			if strings.Contains(p.ext, "e2e") {
+				e := &slayers.EndToEndExtn{Options: []*slayers.EndToEndOption{{OptType: 0xfd, OptData: []byte{1, 2, 3, 4, 5, 6}}}}
+				e.NextHdr = l4
+				extra = append(extra, e)
+				l4 = slayers.End2EndClass
+			}
+			if strings.Contains(p.ext, "hbh") {
+				h := &slayers.HopByHopExtn{Options: []*slayers.HopByHopOption{{OptType: 0xfd, OptData: []byte{9, 8, 7, 6, 5, 4, 3, 2, 1, 0}}}}
+				h.NextHdr = l4
+				extra = append([]gopacket.SerializableLayer{h}, extra...)
+				l4 = slayers.HopByHopClass
+			}
+			spkt.NextHdr = l4
+			ls = append(append([]gopacket.SerializableLayer{spkt}, extra...), ls[1:]...)
+		}
 		b := gopacket.NewSerializeBuffer()
 		if err := gopacket.SerializeLayers(b, opts, ls...); err != nil {
 			vt.Fatal("serialize %v: %v", p, err)
@@ -717,7 +737,11 @@ func deliverAll(w *vt.Writer, rng *rand.Rand, dp *router.Connector, c caseCfg, f
 				kind = "err-udp" // complete UDP header: the ordinary case
 			}
 		}
-		e := vt.M{"ev": "deliver", "kind": kind, "cut": p.cut, "field": p.field, "dst": p.dst, "disp": []string{"discard", "forward", "slow", "done"}[disp],
+		ext := p.ext
+		if ext == "" {
+			ext = "none"
+		}
+		e := vt.M{"ev": "deliver", "kind": kind, "ext": ext, "cut": p.cut, "field": p.field, "dst": p.dst, "disp": []string{"discard", "forward", "slow", "done"}[disp],
 			"egress": int(egress), "port": -1, "addr": "-", "want": hostAddr().String(), "inst": []string{}}
 		if p.dst != "ip" {
 			e["want"] = "-"
@@ -747,6 +771,29 @@ func deliverAll(w *vt.Writer, rng *rand.Rand, dp *router.Connector, c caseCfg, f
 		}
 		for _, f := range fs {
 			one(pkt{kind: "udp", field: f, dst: d})
+		}
+	}
+	// the same packets behind hop-by-hop / end-to-end extension headers (e.g. authenticated packets)
+	exts := []string{"hbh", "e2e", "hbh+e2e"}
+	if full {
+		lo, hi := effRange(c)
+		for _, k := range kinds {
+			for _, x := range exts {
+				for _, f := range []int{(lo + hi) / 2, hi, 80} {
+					if f >= 0 && f <= 65535 {
+						one(pkt{kind: k, field: f, dst: "ip", ext: x})
+					}
+				}
+			}
+		}
+		for _, x := range exts {
+			one(pkt{kind: "udp", field: 443, dst: "svc-cs", ext: x})
+		}
+	} else {
+		lo, hi := effRange(c)
+		for i := 0; i < 3; i++ {
+			one(pkt{kind: kinds[rng.Intn(len(kinds))], field: []int{(lo + hi) / 2, lo, 80}[rng.Intn(3)] & 0xffff, dst: "ip",
+				ext: exts[rng.Intn(len(exts))]})
 		}
 	}
 	// SCMP errors whose quote is cut at every layer boundary of the offending packet (cut = number
